@@ -5,13 +5,16 @@
 (*   Publish    = OnReadRtmpAvMsg -> broadcastByRtmpMsg (the whole fan-out of one message)      *)
 (*   Join(c)    = AddRtmpSubSession / AddHttpflvSubSession     Leave(c) = Del...SubSession      *)
 (* Consumers: RTMP subscribers (optionally behind the merge writer), HTTP-FLV / WebSocket-FLV   *)
-(* subscribers, the FLV recording (attached for exactly the publisher's lifetime).              *)
+(* subscribers, relay-push targets (PushSubs: one connection attempt per publisher epoch, attached  *)
+(* when the target accepts it, closed with the publisher; no key-frame gating, metadata with        *)
+(* @setDataFrame), the FLV recording (attached for exactly the publisher's lifetime).            *)
 (* A message is a record [id, t, ep, hv, ha, sz]: t in meta|vsh|ash|key|inter|aud|empty;        *)
 (* hv / ha = content version of the video / audio sequence header in force when it was          *)
 (* published (for a header message: the version it carries; a header may be re-sent unchanged). *)
 EXTENDS Integers, Sequences, FiniteSets, TLC, Json
 
 CONSTANTS RtmpSubs, FlvSubs,     \* consumer ids
+          PushSubs,              \* relay-push targets
           GopNumR, GopNumF,      \* rtmp.gop_num, httpflv.gop_num
           CapR, CapF,            \* single_gop_max_frame_num (0 = unlimited)
           MwBudget,              \* rtmp.merge_write_size in size units (0 = merge writer off)
@@ -20,7 +23,7 @@ CONSTANTS RtmpSubs, FlvSubs,     \* consumer ids
           MaxPub, MaxEpoch,      \* bounds
           Types                  \* message types the publisher may send
 
-Subs == RtmpSubs \cup FlvSubs
+Subs == RtmpSubs \cup FlvSubs \cup PushSubs
 
 VARIABLES live,    \* a publisher is attached
           epoch,   \* number of publishers so far
@@ -39,7 +42,8 @@ vars == <<live, epoch, next, hdr, nver, statV, pubs, cacheR, cacheF, mw, sub, re
 View == <<live, epoch, next, hdr, nver, statV, pubs, cacheR, cacheF, mw, sub, rec>>
 
 EmptyCache == [meta |-> <<>>, vsh |-> <<>>, ash |-> <<>>, ring |-> <<>>]
-SubInit == [in |-> FALSE, fresh |-> FALSE, wait |-> FALSE, got |-> <<>>, run |-> 0, proAt |-> 0, proGops |-> FALSE]
+\* ep: publisher epoch whose push attempt the target has consumed (push targets only)
+SubInit == [in |-> FALSE, fresh |-> FALSE, wait |-> FALSE, got |-> <<>>, run |-> 0, proAt |-> 0, proGops |-> FALSE, ep |-> 0]
 
 IsFrame(m) == m.t \in {"key", "inter", "aud"}
 IsVideo(m) == m.t \in {"key", "inter"}
@@ -95,21 +99,25 @@ PubLeave ==
   /\ cacheR' = EmptyCache /\ cacheF' = EmptyCache
   /\ LET rcp == {c \in RtmpSubs : sub[c].in /\ ~sub[c].fresh /\ ~sub[c].wait}
          del == [c \in Subs |-> IF c \in rcp THEN mw ELSE <<>>]
-     IN /\ sub' = [c \in Subs |-> [sub[c] EXCEPT !.got = @ \o del[c], !.run = 0, !.proAt = 0, !.proGops = FALSE,
+     IN /\ sub' = [c \in Subs |-> IF c \in PushSubs THEN [SubInit EXCEPT !.ep = sub[c].ep]    \* stopPushIfNeeded: closed
+                                  ELSE [sub[c] EXCEPT !.got = @ \o del[c], !.run = 0, !.proAt = 0, !.proGops = FALSE,
                                                 !.wait = FALSE]]   \* nobody waits for a key frame of a stream that is gone
         /\ act' = [name |-> "PubLeave", del |-> [c \in Subs |-> Ids(del[c])], rec |-> Ids(rec)]
   /\ mw' = <<>> /\ rec' = <<>>
   /\ UNCHANGED <<epoch, next, nver>>
 
+\* a push target can accept the one connection attempt startPushIfNeeded made when the publisher arrived
+JoinOk(c) == ~sub[c].in /\ (c \in PushSubs => (live /\ sub[c].ep # epoch))
 Join(c) ==
-  /\ ~sub[c].in
-  /\ sub' = [sub EXCEPT ![c] = [SubInit EXCEPT !.in = TRUE, !.fresh = TRUE, !.wait = statV]]
+  /\ JoinOk(c)
+  /\ sub' = [sub EXCEPT ![c] = [SubInit EXCEPT !.in = TRUE, !.fresh = TRUE, !.wait = IF c \in PushSubs THEN FALSE ELSE statV,
+                                                !.ep = IF c \in PushSubs THEN epoch ELSE 0]]
   /\ act' = [name |-> "Join", c |-> c]
   /\ UNCHANGED <<live, epoch, next, hdr, nver, statV, pubs, cacheR, cacheF, mw, rec>>
 
 Leave(c) ==
   /\ sub[c].in
-  /\ sub' = [sub EXCEPT ![c] = SubInit]
+  /\ sub' = [sub EXCEPT ![c] = [SubInit EXCEPT !.ep = sub[c].ep]]
   /\ act' = [name |-> "Leave", c |-> c]
   /\ UNCHANGED <<live, epoch, next, hdr, nver, statV, pubs, cacheR, cacheF, mw, rec>>
 
@@ -128,6 +136,7 @@ Allowed(t, newver) ==
 Fan(m) ==
   LET R == {c \in RtmpSubs : sub[c].in}
       F == {c \in FlvSubs : sub[c].in}
+      P == {c \in PushSubs : sub[c].in}     \* relay push: prologue from the RTMP cache, then every message
       isKey == m.t = "key"
       \* RTMP loop
       proR(c)   == IF sub[c].fresh THEN Prologue(cacheR) ELSE <<>>
@@ -145,9 +154,9 @@ Fan(m) ==
       wait1F(c) == IF sub[c].fresh /\ GopCount(cacheF) > 0 THEN FALSE ELSE sub[c].wait
       getF(c)   == ~wait1F(c) \/ isKey
       liveF(c)  == IF getF(c) THEN <<m>> ELSE <<>>
-      pro(c)  == IF c \in R THEN proR(c) ELSE IF c \in F THEN proF(c) ELSE <<>>
-      lv(c)   == IF c \in R THEN liveR(c) ELSE IF c \in F THEN liveF(c) ELSE <<>>
-      gops(c) == IF c \in R THEN GopCount(cacheR) > 0 ELSE GopCount(cacheF) > 0
+      pro(c)  == IF c \in R \cup P THEN proR(c) ELSE IF c \in F THEN proF(c) ELSE <<>>
+      lv(c)   == IF c \in R THEN liveR(c) ELSE IF c \in F THEN liveF(c) ELSE IF c \in P THEN <<m>> ELSE <<>>
+      gops(c) == IF c \in R \cup P THEN GopCount(cacheR) > 0 ELSE GopCount(cacheF) > 0
       \* a consumer that has been waiting is admitted by this key frame: the metadata and sequence
       \* headers now in the cache are (re)sent first, since any that arrived while it was waiting
       \* were withheld from it
@@ -162,6 +171,7 @@ Fan(m) ==
       sub |-> [c \in Subs |->
                  IF c \in R THEN upd(c, wait2R(c))
                  ELSE IF c \in F THEN upd(c, IF getF(c) THEN FALSE ELSE wait1F(c))
+                 ELSE IF c \in P THEN upd(c, FALSE)
                  ELSE sub[c]],
       mw |-> IF R = {} THEN mw ELSE IF full THEN <<>> ELSE mw1]
 
@@ -273,8 +283,9 @@ HeadersFirst ==
           => \E j \in 1..(i-1) : g[j].t = "meta" /\ g[j].ep = epoch /\ g[j].id >= pubs[p].id
 
 \* C02 KeyFirst: the first video frame a consumer receives in an epoch is a key frame.
+\* (a relay-push session is not gated: it carries on from wherever the stream is)
 KeyFirst ==
-  \A c \in Subs : LET g == sub[c].got IN
+  \A c \in Subs \ PushSubs : LET g == sub[c].got IN
     \A i \in 1..Len(g) :
       (IsVideo(g[i]) /\ \A k \in 1..(i-1) : ~(IsVideo(g[k]) /\ g[k].ep = g[i].ep)) => g[i].t = "key"
 
@@ -300,7 +311,7 @@ St(l, e, n, h, nv, sv, cr, cf, w, s, ksh) ==
    cr |-> Ids(cr.meta \o cr.vsh \o cr.ash), crr |-> [i \in 1..Len(cr.ring) |-> Ids(cr.ring[i])],
    cf |-> Ids(cf.meta \o cf.vsh \o cf.ash), cfr |-> [i \in 1..Len(cf.ring) |-> Ids(cf.ring[i])],
    mw |-> Ids(w),
-   sub |-> [c \in Subs |-> <<s[c].in, s[c].fresh, s[c].wait, s[c].run, Ids(s[c].got)>>]]
+   sub |-> [c \in Subs |-> <<s[c].in, s[c].fresh, s[c].wait, s[c].run, Ids(s[c].got), s[c].ep>>]]
 Emit == PrintT("@E@" \o ToJson([f |-> St(live, epoch, next, hdr, nver, statV, cacheR, cacheF, mw, sub, KeySinceHdr), a |-> act',
                                  t |-> St(live', epoch', next', hdr', nver', statV', cacheR', cacheF', mw', sub', KeySinceHdr'),
                                  l |-> TLCGet("level")]))
